@@ -79,7 +79,7 @@ mod proofs {
     }
 
     /// C03/C08: sequence preservation and well-formedness of one RowIterator step.
-    //@ props=C03,C08,C02 cfg=incrate_small,incrate inst="RowIterator::next, one step from an arbitrary valid state" bounds="source yields <= 2 symbolic pixels then None; every colour symbolic; capacity 4 (H4) and 50 (real); symbolic element index" timeout=2400 mem=8
+    //@ props=C03,C08,C02,C01 cfg=incrate_small,incrate inst="RowIterator::next, one step from an arbitrary valid state" bounds="source yields <= 2 symbolic pixels then None; every colour symbolic; capacity 4 (H4) and 50 (real); symbolic element index" timeout=2400 mem=8
     #[kani::proof]
     #[kani::unwind(52)]
     fn row_step() {
@@ -129,8 +129,8 @@ mod proofs {
             }
             rhs_len += l;
         }
-        assert!(lhs_len == rhs_len, "[C03] no pixel dropped or duplicated by a row step");
-        assert!(lhs_j == rhs_j, "[C03] pixels keep position, colour and order through a row step");
+        assert!(lhs_len == rhs_len, "[C03][C01] no pixel dropped or duplicated by a row step");
+        assert!(lhs_j == rhs_j, "[C03][C01] pixels keep position, colour and order through a row step");
         kani::cover!(out.is_some() && len == MAX_ROW_SIZE && consumed == 1 && !first_pixel, "cover: full row flushed by an adjacent pixel");
         kani::cover!(out.is_none() && consumed == 2, "cover: source exhausted after skipping");
     }
@@ -288,12 +288,12 @@ mod proofs {
             assert!(b.x_right >= b.x_left && b.y_bottom >= b.y_top, "[C03][C08] returned block is a rectangle: start <= end");
             let w = (b.x_right - b.x_left) as usize + 1;
             let h = (b.y_bottom - b.y_top) as usize + 1;
-            assert!(w <= MAX_ROW_SIZE && h <= MAX_BLOCK_SIZE && b.colors.len() == ((w as u16) * (h as u16)) as usize, "[C03][C08] block data = width x rows: the burst exactly fills its window");
+            assert!(w <= MAX_ROW_SIZE && h <= MAX_BLOCK_SIZE && b.colors.len() == ((w as u16) * (h as u16)) as usize, "[C03][C08][C01] block data = width x rows: the burst exactly fills its window");
             if j < b.colors.len() {
                 let r: u8 = kani::any();
                 let c: u8 = kani::any();
                 kani::assume((c as usize) < w && (r as usize) < h && j == ((r as u16) * (w as u16) + c as u16) as usize);
-                assert!((b.x_left + c as u16, b.y_top + r as u16, raw(b.colors[j])) == (lx, ly, lc), "[C03] pixels keep position, colour and order through a block step (returned block)");
+                assert!((b.x_left + c as u16, b.y_top + r as u16, raw(b.colors[j])) == (lx, ly, lc), "[C03][C01] pixels keep position, colour and order through a block step (returned block)");
                 found = true;
             }
             rhs_len = b.colors.len();
@@ -310,12 +310,12 @@ mod proofs {
                 let r: u8 = kani::any();
                 let c: u8 = kani::any();
                 kani::assume((c as usize) < w && (r as usize) < h && q == ((r as u16) * (w as u16) + c as u16) as usize);
-                assert!((it.x_left + c as u16, it.y_top + r as u16, raw(it.colors[q])) == (lx, ly, lc), "[C03] pixels keep position, colour and order through a block step (pending block)");
+                assert!((it.x_left + c as u16, it.y_top + r as u16, raw(it.colors[q])) == (lx, ly, lc), "[C03][C01] pixels keep position, colour and order through a block step (pending block)");
                 found = true;
             }
             rhs_len += it.colors.len();
         }
-        assert!(total == rhs_len, "[C03] no pixel dropped or duplicated by a block step");
+        assert!(total == rhs_len, "[C03][C01] no pixel dropped or duplicated by a block step");
         assert!(found, "[C03] every input element appears on the output side");
         // non-vacuity witnesses, chosen per case so that each is reachable
         let wa = out.is_some() && consumed == 1 && it.first_row && !first_row && extends; // merged block returned when the source ends
@@ -326,7 +326,7 @@ mod proofs {
         kani::cover!(match case { 1 => wa, 2 => wb, 3 => wd, _ => wb }, "cover: case witness 2");
     }
 
-    //@ props=C03,C08,C20 cfg=incrate_small inst="BlockIterator::next, one step from an arbitrary valid state, capacities 4/8 (H4)" bounds="source yields <= 1 symbolic well-formed row then None; every colour symbolic; symbolic element index" timeout=1800 mem=8
+    //@ props=C03,C08,C20,C01 cfg=incrate_small inst="BlockIterator::next, one step from an arbitrary valid state, capacities 4/8 (H4)" bounds="source yields <= 1 symbolic well-formed row then None; every colour symbolic; symbolic element index" timeout=1800 mem=8
     #[kani::proof]
     #[kani::unwind(12)]
     fn block_step_small() {
